@@ -36,3 +36,26 @@ Theorem scale_fields_cover :
   forallb registered spec_unit_fields = true /\ forallb (fun p => negb (registered p)) spec_unscaled_fields = true.
 Proof. exact Proofs.scale_fields_cover. Qed.
 Print Assumptions scale_fields_cover.
+
+(* ---- reorderGlyphs: one Coverage and the list parallel to it (ModelReorder.v: _sort_by_gid / ReorderCoverage.apply) *)
+From FV Require C17.ModelReorder C17.ProofsReorder.
+Theorem reorder_keeps_association : forall order glyphs p g' p',
+  ModelReorder.apply_rule order glyphs (Some p) = Ok (g', Some p') ->
+  Permutation.Permutation (combine g' p') (combine glyphs p) /\ length g' = length p' /\
+  Sorted.Sorted (ProofsReorder.kle (ModelReorder.gid_in order)) g'.
+Proof. exact ProofsReorder.reorder_keeps_association. Qed.
+Print Assumptions reorder_keeps_association.
+
+Theorem reorder_lookup_unchanged : forall order glyphs p g' p' g,
+  NoDup glyphs -> ModelReorder.apply_rule order glyphs (Some p) = Ok (g', Some p') ->
+  ProofsReorder.assoc g (combine g' p') = ProofsReorder.assoc g (combine glyphs p).
+Proof. exact ProofsReorder.reorder_lookup_unchanged. Qed.
+Print Assumptions reorder_lookup_unchanged.
+
+(* tied to the source: the rule table regenerated from reorderGlyphs.py names, for every Coverage of the OpenType specification,
+   exactly the array the specification orders by that Coverage — and nothing else *)
+Theorem reorder_rules_cover_spec :
+  forallb ModelReorder.in_rules (ModelReorder.spec_parallel ++ ModelReorder.spec_plain) = true /\
+  forallb ModelReorder.in_spec Data_reorder.reorder_coverage_rules = true.
+Proof. exact ProofsReorder.reorder_rules_cover_spec. Qed.
+Print Assumptions reorder_rules_cover_spec.
